@@ -131,10 +131,10 @@ func (g *VCGen) modLoc(env *SpecEnv, e Expr) []modLoc {
 		case "chanof":
 			g.chanHeaps()
 			ch := env.tr(x.Args[0])
-			return []modLoc{{heap: chanSendsHeap, kind: "obj", ref: ch.T}, {heap: chanClosedHeap, kind: "obj", ref: ch.T}, {heap: chanCapHeap, kind: "obj", ref: ch.T}}
+			return []modLoc{{heap: chanSendsHeap, kind: "obj", ref: ch.T}, {heap: chanClosedHeap, kind: "obj", ref: ch.T}, {heap: chanCapHeap, kind: "obj", ref: ch.T}, {heap: chanRecvsHeap, kind: "obj", ref: ch.T}}
 		case "chanstate":
 			g.chanHeaps()
-			return []modLoc{{heap: chanSendsHeap, kind: "global"}, {heap: chanClosedHeap, kind: "global"}}
+			return []modLoc{{heap: chanSendsHeap, kind: "global"}, {heap: chanClosedHeap, kind: "global"}, {heap: chanRecvsHeap, kind: "global"}}
 		case "ghost":
 			id, ok := x.Args[0].(EIdent)
 			if !ok {
